@@ -40,6 +40,8 @@ package linear
 //@   requires dst-covers-src: dstOffsetX == dstImg.Rect.Min.X - bounds.Min.X && dstOffsetY == dstImg.Rect.Min.Y - bounds.Min.Y && bounds.Max.X - bounds.Min.X <= dstImg.Rect.Max.X - dstImg.Rect.Min.X && bounds.Max.Y - bounds.Min.Y <= dstImg.Rect.Max.Y - dstImg.Rect.Min.Y
 //@   requires sane-coordinates: -0x40000000 <= bounds.Min.X && bounds.Min.X <= bounds.Max.X && bounds.Max.X <= 0x40000000 && -0x40000000 <= bounds.Min.Y && bounds.Min.Y <= bounds.Max.Y && bounds.Max.Y <= 0x40000000 && -0x40000000 <= dstImg.Rect.Min.X && dstImg.Rect.Min.X <= dstImg.Rect.Max.X && dstImg.Rect.Max.X <= 0x40000000 && -0x40000000 <= dstImg.Rect.Min.Y && dstImg.Rect.Min.Y <= dstImg.Rect.Max.Y && dstImg.Rect.Max.Y <= 0x40000000
 //@   requires bounds-is-src: bounds.Min.X == srcImg.Rect.Min.X && bounds.Min.Y == srcImg.Rect.Min.Y && bounds.Max.X == srcImg.Rect.Max.X && bounds.Max.Y == srcImg.Rect.Max.Y
+//@   loop 1 invariant [C10,C11] dst-window: bounds.Max.X + dstOffsetX <= dstImg.Rect.Max.X && bounds.Max.Y + dstOffsetY <= dstImg.Rect.Max.Y && bounds.Min.X + dstOffsetX == dstImg.Rect.Min.X && bounds.Min.Y + dstOffsetY == dstImg.Rect.Min.Y
+//@   loop 2 invariant [C10,C11] dst-column: dstImg.Rect.Min.X <= j + dstOffsetX && j + dstOffsetX <= dstImg.Rect.Max.X && dstImg.Rect.Min.Y <= i + dstOffsetY && i + dstOffsetY < dstImg.Rect.Max.Y
 //@   loop 1 invariant [C10,C11] rows-of-this-worker: bounds.Min.Y + workerNum <= i && (iter == 0 ==> i == bounds.Min.Y + workerNum)
 //@   loop 1 step [C10,C11] next-row-of-this-worker: i == prev(i) + workerCount
 //@   loop 1 decreases bounds.Max.Y + workerCount - i
@@ -54,6 +56,8 @@ package linear
 //@   requires workers: 0 <= workerNum && workerNum < workerCount && workerCount <= 0x10000
 //@   requires dst-covers-src: dstOffsetX == dstImg.Rect.Min.X - bounds.Min.X && dstOffsetY == dstImg.Rect.Min.Y - bounds.Min.Y && bounds.Max.X - bounds.Min.X <= dstImg.Rect.Max.X - dstImg.Rect.Min.X && bounds.Max.Y - bounds.Min.Y <= dstImg.Rect.Max.Y - dstImg.Rect.Min.Y
 //@   requires sane-coordinates: -0x40000000 <= bounds.Min.X && bounds.Min.X <= bounds.Max.X && bounds.Max.X <= 0x40000000 && -0x40000000 <= bounds.Min.Y && bounds.Min.Y <= bounds.Max.Y && bounds.Max.Y <= 0x40000000 && -0x40000000 <= dstImg.Rect.Min.X && dstImg.Rect.Min.X <= dstImg.Rect.Max.X && dstImg.Rect.Max.X <= 0x40000000 && -0x40000000 <= dstImg.Rect.Min.Y && dstImg.Rect.Min.Y <= dstImg.Rect.Max.Y && dstImg.Rect.Max.Y <= 0x40000000
+//@   loop 1 invariant [C10,C11] dst-window: bounds.Max.X + dstOffsetX <= dstImg.Rect.Max.X && bounds.Max.Y + dstOffsetY <= dstImg.Rect.Max.Y && bounds.Min.X + dstOffsetX == dstImg.Rect.Min.X && bounds.Min.Y + dstOffsetY == dstImg.Rect.Min.Y
+//@   loop 2 invariant [C10,C11] dst-column: dstImg.Rect.Min.X <= j + dstOffsetX && j + dstOffsetX <= dstImg.Rect.Max.X && dstImg.Rect.Min.Y <= i + dstOffsetY && i + dstOffsetY < dstImg.Rect.Max.Y
 //@   loop 1 invariant [C10,C11] rows-of-this-worker: bounds.Min.Y + workerNum <= i && (iter == 0 ==> i == bounds.Min.Y + workerNum)
 //@   loop 1 step [C10,C11] next-row-of-this-worker: i == prev(i) + workerCount
 //@   loop 1 decreases bounds.Max.Y + workerCount - i
@@ -68,6 +72,8 @@ package linear
 //@   requires workers: 0 <= workerNum && workerNum < workerCount && workerCount <= 0x10000
 //@   requires dst-covers-src: dstOffsetX == dstImg.Rect.Min.X - bounds.Min.X && dstOffsetY == dstImg.Rect.Min.Y - bounds.Min.Y && bounds.Max.X - bounds.Min.X <= dstImg.Rect.Max.X - dstImg.Rect.Min.X && bounds.Max.Y - bounds.Min.Y <= dstImg.Rect.Max.Y - dstImg.Rect.Min.Y
 //@   requires sane-coordinates: -0x40000000 <= bounds.Min.X && bounds.Min.X <= bounds.Max.X && bounds.Max.X <= 0x40000000 && -0x40000000 <= bounds.Min.Y && bounds.Min.Y <= bounds.Max.Y && bounds.Max.Y <= 0x40000000 && -0x40000000 <= dstImg.Rect.Min.X && dstImg.Rect.Min.X <= dstImg.Rect.Max.X && dstImg.Rect.Max.X <= 0x40000000 && -0x40000000 <= dstImg.Rect.Min.Y && dstImg.Rect.Min.Y <= dstImg.Rect.Max.Y && dstImg.Rect.Max.Y <= 0x40000000
+//@   loop 1 invariant [C10,C11] dst-window: bounds.Max.X + dstOffsetX <= dstImg.Rect.Max.X && bounds.Max.Y + dstOffsetY <= dstImg.Rect.Max.Y && bounds.Min.X + dstOffsetX == dstImg.Rect.Min.X && bounds.Min.Y + dstOffsetY == dstImg.Rect.Min.Y
+//@   loop 2 invariant [C10,C11] dst-column: dstImg.Rect.Min.X <= j + dstOffsetX && j + dstOffsetX <= dstImg.Rect.Max.X && dstImg.Rect.Min.Y <= i + dstOffsetY && i + dstOffsetY < dstImg.Rect.Max.Y
 //@   loop 1 invariant [C10,C11] rows-of-this-worker: bounds.Min.Y + workerNum <= i && (iter == 0 ==> i == bounds.Min.Y + workerNum)
 //@   loop 1 step [C10,C11] next-row-of-this-worker: i == prev(i) + workerCount
 //@   loop 1 decreases bounds.Max.Y + workerCount - i
